@@ -59,7 +59,7 @@ def job(nthr, pat, down=0, late=0, tier="quick"):
     return {
         "name": "uni-t%d-%s-d%d-l%d" % (nthr, pat, down, late), "src": "uni.c", "defs": defs,
         "unwind": 3, "unwindset": unwindset(nthr, len(pat), nest), "solver": "cadical",
-        "flags": ["--no-malloc-may-fail"], "timeout": 400 if tier == "quick" else 1500, "mem_gb": 16 if nest else (8 if tier == "quick" else 12),
+        "flags": ["--no-malloc-may-fail"], "timeout": 400 if tier == "quick" else 1500, "mem_gb": 24 if nest else (8 if tier == "quick" else 12), "heavy": nest,
         "shape": "threads=%d(+virtual) steps=%s down-mask=%d starting-mask=%d queue-capacity=2" % (nthr, pat, down, late),
         "desc": "return code / direct call / exactly once / right thread / per-sender order, for every actor, destination, "
                 "flag set and write() outcome of the pattern",
